@@ -203,6 +203,8 @@ def strat_adaptive(tier):
                          st.tuples(st.just('quantile'), st.sampled_from([0.5, 0.3, 0.2, 0.1]))),
         'seed': st.integers(0, 2 ** 32 - 1),
         'extra_outputs': st.booleans(),
+        # summaries named in output_names as well, in reversed (non-parent) order or only the last one
+        'summary_outputs': st.sampled_from(['none', 'none', 'reversed', 'last-only']),
     }))
 
 
@@ -216,7 +218,12 @@ def run_adaptive(case):
     models.reset()
     m, info = models.build(desc)
     outs = ['rid'] + (info['extra'] if case['extra_outputs'] else [])
-    ctx = 'n_samples=%d batch_size=%d objective=%r seed=%d model=%r' % (n, bs, objkw, case['seed'], desc)
+    so = case.get('summary_outputs', 'none')
+    if so == 'reversed':
+        outs = outs + list(reversed(info['sums']))
+    elif so == 'last-only':
+        outs = outs + [info['sums'][-1]]
+    ctx = 'n_samples=%d batch_size=%d objective=%r seed=%d output_names=%r model=%r' % (n, bs, objkw, case['seed'], outs, desc)
     with must_not_raise(P, 'Rejection with AdaptiveDistance: ' + ctx):
         res = elfi.Rejection(m['d'], batch_size=bs, seed=case['seed'], output_names=outs).sample(n, bar=False, **objkw)
     log = list(models.LOG)
